@@ -46,7 +46,7 @@ def run(chk):
     mk = repo.func_opt("aiohttp/web_server.py", "Server._make_request")
     if mk is not None:
         hints[(RH, "_request_factory")] = mk
-    eff = Effects(repo, int_gate=lambda c: C01.gate_of_int(c, folder) is not None, receiver_hints=hints)
+    eff = Effects(repo, int_gate=lambda c: C01.int_cannot_raise(c, folder), receiver_hints=hints)
 
     # ---- C05.escape ------------------------------------------------------------------------------------
     for q, allowed in ((f"{RH}.data_received", set()), (f"{RH}._process_keepalive", set()), (f"{RH}.connection_lost", set()),
